@@ -167,6 +167,16 @@ def fmt3(ctx: Ctx) -> None:
                            construct=f"{q}: loop over {it[:60]}")
     if n < 3:
         raise AnalysisError(f"FMT-3: {n} sub-component loops found (3 confirmed by hand)")
+    # child contexts / child task stacks are rendered whether or not there is an inner stack
+    fnc = mod.fn("Context._format")
+    for loop in [l_ for l_ in ast.walk(fnc) if isinstance(l_, ast.For) and norm(l_.iter) == "self.children"]:
+        gs_ = [(norm(gx), pol) for gx, pol in guards_of(mod, loop, fnc)]
+        dep = [g_ for g_ in gs_ if "inner_stack" in g_[0]]
+        if dep:
+            ctx.R.fail("FMT-3", mod, loop, f"Context._format renders the children only under `{'not ' if not dep[0][1] else ''}{dep[0][0]}`: a context that has both an inner stack and children loses all its "
+                       "child contexts and child task stacks in the tree", construct="children rendered only without an inner stack")
+        else:
+            ctx.R.ok("FMT-3", "Context._format renders the children independently of the inner stack")
     # inner stack lines: header dropped, rest extended
     fn = mod.fn("Context._format")
     ext = [c for c in ast.walk(fn) if isinstance(c, ast.Call) and norm(c.func) == "lines.extend"]
@@ -180,7 +190,15 @@ def fmt3(ctx: Ctx) -> None:
         ctx.R.fail("FMT-3", mod, fn, "Context._format must splice the inner stack's lines (without its header) after the context line", construct="inner_stack lines")
 
 
+_NL_SCOPE: List[ast.AST] = []
+
+
 def _ends_nl(e: ast.AST, ok_vars: Set[str]) -> bool:
+    if isinstance(e, ast.Name) and e.id not in ok_vars and _NL_SCOPE:
+        # a local bound once: judge its value
+        src = [a_.value for a_ in ast.walk(_NL_SCOPE[-1]) if isinstance(a_, ast.Assign) and len(a_.targets) == 1 and isinstance(a_.targets[0], ast.Name) and a_.targets[0].id == e.id]
+        if len(src) == 1 and not (isinstance(src[0], ast.Name) and src[0].id == e.id):
+            return _ends_nl(src[0], ok_vars)
     if isinstance(e, ast.Constant) and isinstance(e.value, str):
         return e.value.endswith("\n")
     if isinstance(e, ast.JoinedStr):
@@ -236,6 +254,7 @@ def fmt5(ctx: Ctx) -> None:
             continue  # moved / inlined: its lines are seen where they are produced now
         fn = mod.fn(q)
         ctx.R.saw(mod, q)
+        _NL_SCOPE.append(fn)
         okv = {"line", "subline"}
         for s in ast.walk(fn):
             exprs: List[ast.AST] = []
@@ -259,6 +278,7 @@ def fmt5(ctx: Ctx) -> None:
                     ctx.R.undecided("FMT-5", f"{q}: cannot see whether `{norm(e)[:50]}` ends in a newline")
                 else:
                     ctx.R.fail("FMT-5", mod, s, f"{q}: a produced line does not end in a newline: str() glues it to the next line", construct=f"{q}: {norm(e)[:80]}")
+    del _NL_SCOPE[:]
     if n < 12:
         raise AnalysisError(f"FMT-5: {n} produced lines found (>= 12 confirmed by hand)")
     # _format_error splits embedded newlines
@@ -924,7 +944,13 @@ def _emission_rule(ctx: Ctx, rule: str, qual: str, units, known: List[str], expe
         if not wrong:
             continue
         (bad_all if len(wrong) == len(lst) else bad_some).append(wrong[0])
-    dependent = [x for x in extra if any(k in x for k in known) or " if " in x or re.search(r"(\bself|\bparent|\[\*\]|\[-?\d+\])\.\w+\(", x)]
+    def _subject(a: str) -> str:
+        # the expression an atom is about: strip `len(...)`, `... is None`, comparisons with constants
+        a = re.sub(r" (is None|is not None|== \S+|!= \S+|[<>]=? \d+)$", "", a)
+        m = re.fullmatch(r"(len|bool)\((.*)\)", a)
+        return m.group(2) if m else a
+    dependent = [x for x in extra if _subject(x) in known or _subject(x) in {_subject(k) for k in known} or " if " in x
+                 or re.search(r"(\bself|\bparent|\[\*\]|\[-?\d+\])\.\w+\(", x)]
     for nm in sorted(visited):
         ctx.R.saw(mod, nm)
     if not bad_all and not bad_some:
@@ -1050,7 +1076,7 @@ def fmt14(ctx: Ctx) -> None:
         for ch in ast.iter_child_nodes(a_):
             parent[id(ch)] = a_
     ex = findings(example)
-    ctx.R.positive_example("FMT-14", bool(ex and ex[0][1] == ["show_hidden_frames"]))
+    ctx.R.positive_example("FMT-14", bool(ex and "show_hidden_frames" in ex[0][1] and "ascii_only" not in ex[0][1]))
     for q, fn in mod.defs.items():
         if not isinstance(fn, ast.FunctionDef) or not (q.split(".")[-1].startswith("_format") or q.split(".")[-1] in ("format", "format_flat", "__str__")):
             continue
